@@ -28,7 +28,7 @@ REQUIRED = ["C16:returns", "C16:cagr", "C16:volatility", "C16:drawdown", "C16:ma
             "C16:downside-volatility", "C16:upside-volatility", "C16:sharpe", "C16:sortino", "C16:calmar", "C16:martin",
             "C16:tracking-error", "C16:scale-pow2-bit-identical", "C16:scale-positive", "C16:cagr-structural",
             "C16:drawdown-structural", "C16:corruption-rejected", "C16:frame-columns", "C16:tearsheet"]
-REQUIRED_CATS = ["measured-then-edited-in-place", "index:tz-intraday", "tied-returns", "plateau", "index:D", "index:B", "index:intraday", "index:irregular", "frame", "series"]
+REQUIRED_CATS = ["index-unit-not-microseconds:intraday", "measured-then-edited-in-place", "index:tz-intraday", "tied-returns", "plateau", "index:D", "index:B", "index:intraday", "index:irregular", "frame", "series"]
 TECHNIQUE = "runtime monitoring: pure-Python reference implementation of the textbook definitions compared on generated level series; corruption matrix enumerated"
 LEVEL_TEXT = ("Exploration against an independent pure-Python reference of every listed metric, with exact (power-of-two) and "
               "approximate scale-invariance twins and a fully enumerated single-defect corruption matrix.")
@@ -131,9 +131,14 @@ def make_index(r, n):
     else:
         idx = pd.DatetimeIndex(sorted({pd.Timestamp("2015-01-01") + pd.Timedelta(seconds=r.randint(0, 86400 * n * 2))
                                        for _ in range(n)}))
+    if r.random() < 0.3:
+        # the same instants stored at another resolution (nanoseconds from parquet / older pandas, seconds from numpy)
+        idx = idx.as_unit(r.choice(["ns", "ns", "s", "ms"]))
+        UNIT[0] = True
     return kind, idx
 
 
+UNIT = [False]
 METRICS = ["cagr", "volatility", "max_drawdown", "value_at_risk", "expected_shortfall", "downside_volatility",
            "upside_volatility", "martin_risk", "sharpe_ratio", "sortino_ratio", "calmar_ratio", "martin_ratio"]
 
@@ -141,7 +146,10 @@ METRICS = ["cagr", "volatility", "max_drawdown", "value_at_risk", "expected_shor
 def series_case(ctx):
     r, nr = ctx.rng, ctx.nrng
     n = r.choice([2, 3, 5, 10, 50, 50, 400, 400, 2000 if r.random() < 0.3 else 100]) if r.random() < 0.9 else r.randint(2, 60)
+    UNIT[0] = False
     kind, idx = make_index(r, n)
+    if UNIT[0]:
+        ctx.cat("index-unit-not-microseconds" + (":intraday" if kind in ("intraday", "irregular") else ""))
     if len(idx) < 2 or (idx[-1] - idx[0]).days < 1:
         ctx.cat("skipped-span-below-one-day")
         return
@@ -257,7 +265,10 @@ def series_case(ctx):
 def frame_case(ctx):
     r, nr = ctx.rng, ctx.nrng
     n = r.choice([3, 10, 50, 400])
+    UNIT[0] = False
     kind, idx = make_index(r, n)
+    if UNIT[0]:
+        ctx.cat("index-unit-not-microseconds" + (":intraday" if kind in ("intraday", "irregular") else ""))
     if len(idx) < 2 or (idx[-1] - idx[0]).days < 1:
         ctx.cat("skipped-span-below-one-day")
         return
